@@ -5,12 +5,13 @@
 EXTENDS Cleaner, TLC, Json
 
 CONSTANTS MaxRecs, MaxBatch, MaxOps, MaxEpoch, CapSet, KeySet, AgeSet, MsgsSet, BytesSet,
-          CompactSet, LagSet, BigSet, MaxCleans, MaxTicks, UseWindow, UseReopen, UseEpochs, UseReaders, OccSet,
+          CompactSet, LagSet, BigSet, MaxCleans, MaxTicks, UseWindow, UseReopen, UseEpochs, UseReaders, UseRevReaders, UseFaults, OccSet,
           MinCleanSegs   \* stimulus generation: cleans start only on logs with at least this many segments
 VARIABLES last, nRecs, nOps, nCleans, nTicks,
+          dirty,    \* ghost: a clean failed (deletion error) and has not been retried successfully yet
           recUpTo   \* ghost: segments with a base below this offset were opened from disk (reopen) or
                     \* swapped in by Replace (compaction) - their write times come from the index
-mcvars == <<cvars, last, nRecs, nOps, nCleans, nTicks, recUpTo>>
+mcvars == <<cvars, last, nRecs, nOps, nCleans, nTicks, recUpTo, dirty>>
 
 Rec(i, k, big, e, t, x) == [ep |-> e, ts |-> t, key |-> k, val |-> i, hdr |-> "h",
                             sz |-> IF big THEN 2 ELSE 1, fp |-> i, exp |-> x]
@@ -25,6 +26,7 @@ RecAfter(name) ==
     [] name = "CleanEnd" /\ cc.compact /\ Len(pend.segs) > 1 -> mx(recUpTo, Last(pend.segs).base)
     [] OTHER -> recUpTo
 Step(a) == /\ nOps < MaxOps /\ nOps' = nOps + 1 /\ last' = a /\ recUpTo' = RecAfter(a.a)
+           /\ dirty' = (a.a = "CleanFail" \/ (dirty /\ a.a # "Clean"))
 
 MCInit ==
   /\ cfg \in [maxBytes : CapSet, occ : OccSet]
@@ -34,8 +36,8 @@ MCInit ==
   /\ obs = [a |-> "Open", ret |-> <<>>, err |-> ""]
   /\ cc \in [age : AgeSet, msgs : MsgsSet, bytes : BytesSet, compact : CompactSet, workers : {1}]
   /\ (cc.compact \/ HasLimits(cc))
-  /\ now = 10 /\ pend = NoPend
-  /\ last = [a |-> "Open"] /\ nRecs = 0 /\ nOps = 0 /\ nCleans = 0 /\ nTicks = 0 /\ recUpTo = 0
+  /\ now = 10 /\ pend = NoPend /\ rr = [r \in RevReaders |-> NoRev]
+  /\ last = [a |-> "Open"] /\ nRecs = 0 /\ nOps = 0 /\ nCleans = 0 /\ nTicks = 0 /\ recUpTo = 0 /\ dirty = FALSE
 
 \* a batch of n records with keys ks[1..n]; the clock advances by one per record,
 \* timestamps = clock - lag (lag > 0: non-monotone write times)
@@ -109,29 +111,47 @@ MCClean ==
   /\ DoClean /\ Step([a |-> "Clean", cls |-> CleanClass])
   /\ nCleans' = nCleans + 1 /\ UNCHANGED <<nRecs, nTicks>>
 
+\* a clean with a transient deletion error; it is always followed (not necessarily
+\* at once: appends, HW moves and ticks may come first) by a retry
+MCCleanFail(k) ==
+  /\ UseFaults /\ ~dirty /\ nCleans < MaxCleans - 1 /\ nOps < MaxOps - 1
+  /\ DoCleanFail(k) /\ Step([a |-> "CleanFail", k |-> k, cls |-> CleanClass])
+  /\ nCleans' = nCleans + 1 /\ UNCHANGED <<nRecs, nTicks>>
+
 MCCleanBegin ==
-  /\ UseWindow /\ nCleans < MaxCleans /\ Len(segs) >= MinCleanSegs
+  /\ ~dirty /\ UseWindow /\ nCleans < MaxCleans /\ Len(segs) >= MinCleanSegs
   /\ DoCleanBegin /\ Step([a |-> "CleanBegin", cls |-> CleanClass])
   /\ nCleans' = nCleans + 1 /\ UNCHANGED <<nRecs, nTicks>>
 
 MCCleanEnd == DoCleanEnd /\ Step([a |-> "CleanEnd"]) /\ UNCHANGED <<nRecs, nCleans, nTicks>>
 
-MCReopen == UseReopen /\ CReopen /\ Step([a |-> "Reopen"]) /\ UNCHANGED <<nRecs, nCleans, nTicks>>
+MCReopen == ~dirty /\ UseReopen /\ CReopen /\ Step([a |-> "Reopen"]) /\ UNCHANGED <<nRecs, nCleans, nTicks>>
 
 \* persistent readers: created at any offset, drained at any time outside a pending
 \* clean; only without retention limits (see CDrain)
 MCNewReader(r, s, c) ==
-  /\ UseReaders /\ ~HasLimits(cc) /\ ~rd[r].alive
+  /\ ~dirty /\ UseReaders /\ ~HasLimits(cc) /\ ~rd[r].alive
   /\ c => s >= 0        \* a committed reader is only ever started at a real offset
   /\ CNewReader(r, s, c) /\ Step([a |-> "NewReader", r |-> r, s |-> s, c |-> c])
   /\ UNCHANGED <<nRecs, nCleans, nTicks>>
 MCDrain(r) ==
-  /\ UseReaders /\ CDrain(r) /\ Step([a |-> "Drain", r |-> r])
+  /\ ~dirty /\ UseReaders /\ CDrain(r) /\ Step([a |-> "Drain", r |-> r])
+  /\ UNCHANGED <<nRecs, nCleans, nTicks>>
+
+\* persistent reverse readers: created at any offset at any time - also between the
+\* snapshot and the swap of a clean -, read message by message or drained, so that a
+\* clean can overtake them
+MCNewRev(r, s, c) ==
+  /\ ~dirty /\ UseRevReaders /\ ~rr[r].alive
+  /\ DoNewRev(r, s, c) /\ Step([a |-> "NewRev", r |-> r, s |-> s, c |-> c])
+  /\ UNCHANGED <<nRecs, nCleans, nTicks>>
+MCRevRead(r, all) ==
+  /\ ~dirty /\ UseRevReaders /\ DoRevRead(r, all) /\ Step([a |-> "RevRead", r |-> r, all |-> all])
   /\ UNCHANGED <<nRecs, nCleans, nTicks>>
 
 \* a pending clean is always completed: when the budget is nearly used up only
 \* CleanEnd remains
-Room == pend.on => nOps < MaxOps - 1
+Room == (pend.on \/ dirty) => nOps < MaxOps - 1
 
 MCNext ==
   \/ Room /\ \E n \in 1..MaxBatch, ks \in [1..MaxBatch -> KeySet], big \in BigSet, de \in 0..1, lag \in LagSet, miss \in BOOLEAN :
@@ -141,11 +161,14 @@ MCNext ==
   \/ Room /\ MCNewLeaderEpoch
   \/ Room /\ \E d \in 1..2 : MCTick(d)
   \/ MCClean
+  \/ \E k \in 1..Len(segs) : MCCleanFail(k)
   \/ MCCleanBegin
   \/ MCCleanEnd
   \/ MCReopen
   \/ \E r \in Readers, s \in -1..(Newest + 1), c \in BOOLEAN : MCNewReader(r, s, c)
   \/ \E r \in Readers : MCDrain(r)
+  \/ Room /\ \E r \in RevReaders, s \in -1..(Newest + 1), c \in BOOLEAN : MCNewRev(r, s, c)
+  \/ Room /\ \E r \in RevReaders, all \in BOOLEAN : MCRevRead(r, all)
 
 MCSpec == MCInit /\ [][MCNext]_mcvars
 
@@ -156,6 +179,7 @@ StepOK ==
     [] a.a = "Clean" -> P_Clean(Snapshot)
     [] a.a = "CleanEnd" -> P_Clean(pend)
     [] a.a = "Drain" -> P_Drain(a.r)
+    [] a.a = "RevRead" -> P_RevRead(a.r, a.all)
     [] OTHER -> P_Same
 StepsOK == [][StepOK]_mcvars
 
@@ -163,5 +187,5 @@ StepsOK == [][StepOK]_mcvars
 \* the only way the specification of the code may break C08_Survivors
 Tainted(b) == \E i \in DOMAIN b.log : b.log[i].key = "empty"
 
-MCView == <<cfg, log, segs, hw, epochs, ro, rd, cc, now, pend, nRecs, nOps, nCleans, nTicks>>
+MCView == <<cfg, log, segs, hw, epochs, ro, rd, rr, cc, now, pend, nRecs, nOps, nCleans, nTicks>>
 =============================================================================
